@@ -26,7 +26,8 @@ constants) one configuration record is produced:
 * body: one statement record per simple statement of BODY (nested serial loops
   and if-blocks are flattened) that touches an array: op "rmw" if it mutates
   the array (``out=``, ``numpy.copyto``, ``ufunc.at``, ``.fill``, item / augmented
-  assignment), "read" otherwise; ``locks`` = the enclosing ``with lock<n>:``
+  assignment), "slot" if it assigns exactly the item selected by the loop index
+  (``X[i] = ...``), "read" otherwise; ``locks`` = the enclosing ``with lock<n>:``
   blocks, outermost first.  Statements that touch several arrays give one
   record per array with the same locks.
 
@@ -36,7 +37,9 @@ serial result (MutexArrays, NoLostUpdate, deadlock freedom of the lock order).
 
 import ast
 import contextlib
+import inspect
 import re
+import textwrap
 
 
 class Capture:
@@ -142,6 +145,20 @@ def _mutated(stmt):
     return out
 
 
+def _slot_writes(stmt, index):
+    """variables of which the statement assigns exactly the item(s) selected by the loop index:
+    `X[i] = ...` or `X[i, ...] = ...` -- distinct iterations write distinct elements"""
+    out = set()
+    if isinstance(stmt, ast.Assign):
+        for t in stmt.targets:
+            if isinstance(t, ast.Subscript) and isinstance(t.value, ast.Name):
+                sl = t.slice
+                first = sl.elts[0] if isinstance(sl, ast.Tuple) and sl.elts else sl
+                if isinstance(first, ast.Name) and first.id == index:
+                    out.add(t.value.id)
+    return out
+
+
 def _bound(stmt):
     """plain variables (re)bound by the simple statement"""
     out = set()
@@ -199,6 +216,7 @@ def _flatten(stmts, held=()):
         elif isinstance(s, ast.While):
             yield ast.Expr(s.test), held
             yield from _flatten(s.body, held)
+            yield from _flatten(s.orelse, held)
         elif isinstance(s, ast.If):
             yield ast.Expr(s.test), held
             yield from _flatten(s.body, held)
@@ -211,7 +229,7 @@ def _flatten(stmts, held=()):
 
 def _branches(script):
     """[(branch name, statements)] of `def compiled(a)`; the first-run and the rerun branch are analysed separately"""
-    tree = ast.parse(script)
+    tree = ast.parse(textwrap.dedent(script))
     fn = tree.body[0]
     assert isinstance(fn, ast.FunctionDef)
     out = []
@@ -317,8 +335,9 @@ def _analyse_loop(bname, loop, kind, after):
             base, k = _resolve(n, kind)
             if k in ('shared', 'private') and base not in inner_bound:
                 refs.add(base)
+        slots = _slot_writes(s, loop.index)
         for name in sorted(mut):
-            steps.append(dict(op='rmw', arr=arr_index(name), locks=[locks.index(h) + 1 for h in held_locks]))
+            steps.append(dict(op='slot' if name in slots else 'rmw', arr=arr_index(name), locks=[locks.index(h) + 1 for h in held_locks]))
         for name in sorted(refs - mut):
             steps.append(dict(op='read', arr=arr_index(name), locks=[locks.index(h) + 1 for h in held_locks]))
         for name in sorted(_bound(s) & set(leaks)):
@@ -327,7 +346,7 @@ def _analyse_loop(bname, loop, kind, after):
             detail.append(dict(stmt=ast.unparse(s)[:120], writes=sorted(mut), reads=sorted(refs - mut), held=list(held)))
     # only arrays that are written in the loop matter for mutual exclusion; reads of arrays that are
     # complete before the loop are kept only when they are taken under a lock (lock order)
-    written = {st['arr'] for st in steps if st['op'] == 'rmw'}
+    written = {st['arr'] for st in steps if st['op'] in ('rmw', 'slot')}
     steps = [st for st in steps if st['arr'] in written or st['locks']]
     # a private array that is not read after the loop is a per-process scratch buffer (e.g. the
     # workspace of an Inflate inside the loop whose allocation was hoisted): it cannot carry a result
@@ -345,6 +364,11 @@ def _analyse_loop(bname, loop, kind, after):
         st['locks'] = [lremap[l] for l in st['locks']]
     return dict(branch=bname, loop=loop.name, alllocks=locks, arrays=names, shared=shared, nlocks=len(usedlocks), scratch=sorted(arrays[a - 1] for a in scratch),
                 locknames=[locks[l - 1] for l in usedlocks], body=steps, detail=detail, leaks=leaks)
+
+
+def analyse_function(fn):
+    """the same export for a hand written parallel loop of nutils (topology.Topology._locate)"""
+    return analyse(inspect.getsource(fn))
 
 
 def signature(rec):
